@@ -48,28 +48,27 @@ Proof. intros H. unfold load, shift. cbn. rewrite H. reflexivity. Qed.
 
 (* one unanswered round: everything the console prints during the wait arrives within it and does not contain the
    answer -- the wait ends with TimeoutError exactly tmo later, everything printed has been consumed, and the loop
-   goes round again with the 3 s timeout *)
-Lemma probe_round_timeout fuel tmo c (st : stage) (sts : list stage) :
-  insync c -> slow c = None -> (0 < tmo)%Z -> wf_pend st ->
+   goes round again with the 3 s timeout.  General form: output of an earlier command may still be pending *)
+Lemma probe_round_timeout_gen fuel tmo c (st : stage) (sts : list stage) :
+  quiet c -> slow c = None -> (0 < tmo)%Z -> wf_pend st ->
   any_in (blacklist c) (PROBE ++ [CR]) = false ->
-  within (Some tmo) st -> contains PROBE_ANSWER (cat st) = false ->
+  ready (Some (now (io c) + tmo)%Z) (pend (io (load st c))) = length (cpend c ++ cat st) ->
+  contains PROBE_ANSWER (cpend c ++ cat st) = false ->
   exists c2,
     wait_for_shell (S fuel) tmo (st :: sts) c = wait_for_shell fuel 3072%Z sts c2 /\
     insync c2 /\ slow c2 = None /\ now (io c2) = (now (io c) + tmo)%Z /\
     wr (io c2) = wr (io c) ++ PROBE ++ [CR] /\ prompt c2 = prompt c /\ blacklist c2 = blacklist c.
 Proof.
-  intros [Hq Hp] Hslow Htmo Hst Hbl Hin Hno.
+  intros Hq Hslow Htmo Hst Hbl Hall Hno.
   destruct (probe_sent c st Hq Hslow Hst Hbl) as (c1 & E & Hw1 & Hd1 & Hs1 & Hc1 & Hp1 & Ht1 & Hwr1 & Hpr1 & Hbl1).
   cbn [wait_for_shell]. unfold line_nrb. cbn [hd_stage tl]. rewrite E.
-  assert (Hcp : cpend c = []) by (unfold cpend; rewrite Hp; reflexivity).
-  rewrite Hcp in Hc1. cbn [app] in Hc1.
-  assert (Hr : ready (Some (now (io c1) + tmo)%Z) (pend (io c1)) = length (cat st)).
-  { rewrite Hp1, (load_insync_pend c st Hp), Ht1. exact (ready_shift (Some tmo) (now (io c)) st Hin). }
+  assert (Hr : ready (Some (now (io c1) + tmo)%Z) (pend (io c1)) = length (cpend c1)).
+  { rewrite Hp1, Ht1, Hc1. exact Hall. }
   pose proof (expect_literal_timed_iff PROBE_ANSWER tmo c1 Hw1 Hd1 Htmo ltac:(discriminate)) as Iff. cbv zeta in Iff.
   assert (Hit : in_time (now (io c1)) (Some tmo) c1) by (cbn; lia).
   pose proof (expect_loop_timed_state (fuel_of c1) (now (io c1)) tmo [SLit PROBE_ANSWER] [] c1 Hw1 Hd1 (fuel_of_enough c1) Hit) as St.
   cbv zeta in St. fold (expect [SLit PROBE_ANSWER] (Some tmo) c1) in St.
-  rewrite Hr, Hc1, firstn_all in Iff. rewrite Hr, Hc1 in St.
+  rewrite Hr, firstn_all, Hc1 in Iff. rewrite Hr in St.
   destruct (expect [SLit PROBE_ANSWER] (Some tmo) c1) as [[r| | | | | |] c2] eqn:Ex; try contradiction.
   - destruct Iff as [C _]. congruence.
   - destruct St as [(D1 & D2 & D3 & D4 & D5 & _) | D]; [|exfalso; apply D; reflexivity].
@@ -81,6 +80,21 @@ Proof.
       apply cpend_nil_pend; assumption. }
     split; [congruence|]. split; [rewrite D1, Ht1; reflexivity|].
     split; [rewrite Q6; exact Hwr1|]. split; congruence.
+Qed.
+
+Lemma probe_round_timeout fuel tmo c (st : stage) (sts : list stage) :
+  insync c -> slow c = None -> (0 < tmo)%Z -> wf_pend st ->
+  any_in (blacklist c) (PROBE ++ [CR]) = false ->
+  within (Some tmo) st -> contains PROBE_ANSWER (cat st) = false ->
+  exists c2,
+    wait_for_shell (S fuel) tmo (st :: sts) c = wait_for_shell fuel 3072%Z sts c2 /\
+    insync c2 /\ slow c2 = None /\ now (io c2) = (now (io c) + tmo)%Z /\
+    wr (io c2) = wr (io c) ++ PROBE ++ [CR] /\ prompt c2 = prompt c /\ blacklist c2 = blacklist c.
+Proof.
+  intros [Hq Hp] Hslow Htmo Hst Hbl Hin Hno.
+  assert (Hcp : cpend c = []) by (unfold cpend; rewrite Hp; reflexivity).
+  apply probe_round_timeout_gen; try assumption; rewrite Hcp; cbn [app]; [|exact Hno].
+  rewrite (load_insync_pend c st Hp). exact (ready_shift (Some tmo) (now (io c)) st Hin).
 Qed.
 
 (* what the first k rounds look like: each stage complete within its wait, without the answer *)
